@@ -7,6 +7,7 @@ import (
 	"io"
 	"runtime"
 	"sync"
+	"time"
 
 	mqtt "github.com/at-wat/mqtt-go"
 )
@@ -15,11 +16,11 @@ func runtimeGosched() { runtime.Gosched() }
 
 // Errors returned by the simulated transport.
 var (
-	ErrSimReset   = errors.New("simnet: connection reset by peer")
-	ErrSimClosed  = errors.New("simnet: use of closed connection")
-	ErrSimWrite   = errors.New("simnet: injected write error")
-	ErrSimDial    = errors.New("simnet: injected dial error")
-	ErrSimBroken  = errors.New("simnet: broken pipe")
+	ErrSimReset  = errors.New("simnet: connection reset by peer")
+	ErrSimClosed = errors.New("simnet: use of closed connection")
+	ErrSimWrite  = errors.New("simnet: injected write error")
+	ErrSimDial   = errors.New("simnet: injected dial error")
+	ErrSimBroken = errors.New("simnet: broken pipe")
 )
 
 // Conn is the simulated transport of one connection.
@@ -248,6 +249,27 @@ func (c *Conn) Write(p []byte) (int, error) {
 		}
 		f := f
 		s.log(Rec{Kind: "tx", Conn: c.k, N: f.n, P: pkt})
+		if s.sc.Cfg.EarlyReply && !s.race {
+			// a very fast peer: the answer is readable before Write returns and the
+			// reader goroutine gets to run before the writer goes on
+			s.log(Rec{Kind: "bproc", Conn: c.k, N: f.n, P: pkt})
+			resps, closeAfter := s.broker.handle(c, f.n, pkt)
+			for _, rp := range resps {
+				c.mu.Lock()
+				m := c.nB2C
+				c.nB2C++
+				c.mu.Unlock()
+				if c.deliver(EncodeB2C(rp.p)) {
+					s.log(Rec{Kind: "rx", Conn: c.k, N: m, P: rp.p, S: "early"})
+				}
+			}
+			if closeAfter {
+				c.cut(false, "broker-close")
+			}
+			s.probe("early-reply")
+			time.Sleep(time.Nanosecond)
+			continue
+		}
 		if s.race {
 			s.broker.process(c, f.n, pkt)
 			continue
